@@ -146,7 +146,7 @@ def run(ctx, prog, crate):
         n += 1
     for c in indirect:
         ctx.fail("R09.2", ["indirect-call", c.body.path, c.name], "indirect call inside an allocator hook", c.line())
-    ctx.anchor("R09.2", "callees reachable from the allocator hooks", n, 12)
+    ctx.anchor("R09.2", "callees reachable from the allocator hooks", n, 6)
     # the one bounds check indexes [T; 4] with a 4-variant enum (see R10.2 table agreement)
     ctx.note("Assert(BoundsCheck) in AllocOpMap::get_mut is dead: the index is `AllocOp as usize` over 4 variants "
              "into `[T; 4]` (variant count and array length compared in C10/R10.2)")
